@@ -1,7 +1,7 @@
 (** C15 — benchstat output depends only on its inputs, under every schedule
     (the part that is logic; data-race freedom and real interleavings are runtime).
     Statements only; proofs are in Proofs/BenchTab.v. *)
-From Perf Require Import Base.Bytes Base.B64 Model.BenchTab Proofs.BenchTab Model.Sched Proofs.Sched.
+From Perf Require Import Base.Bytes Base.B64 Model.BenchTab Proofs.BenchTab Proofs.BenchTabWarn Model.Sched Proofs.Sched.
 From Coq Require Import Sorting.Permutation.
 
 (** every state Builder.Add can reach has distinct table keys and, per table,
@@ -45,3 +45,37 @@ Theorem C15_tasks_commute : forall (A frozen : Type) (task : frozen -> nat -> A)
   Permutation order order' -> forall j, run A frozen task fz order j = run A frozen task fz order' j.
 Proof. exact tasks_commute. Qed.
 Print Assumptions C15_tasks_commute.
+
+(** every cell carries its OWN over-aggregation warning: field i is named in
+    the warning of cell (t, r, c) iff two measurements falling into that very
+    cell differ in residue field i - no other cell (in particular not the
+    baseline cell of the row) and no order of summarising cells enters *)
+Theorem C15_cell_warning_own_measurements : forall (vals : N -> list bytes) nf ms t r c i,
+  In i (nonsingular vals nf (lookup_res (build ms) t r c)) <->
+  (i < nf)%nat /\
+  exists m1 m2, In m1 ms /\ In m2 ms /\ m_is t r c m1 = true /\ m_is t r c m2 = true /\
+                fval vals (m_res m1) i <> fval vals (m_res m2) i.
+Proof. exact cell_vary_own. Qed.
+Print Assumptions C15_cell_warning_own_measurements.
+
+(** the residue set of a cell is that of its own measurements in first-seen
+    order (what Corr/RunC15.v evaluates as the specification) *)
+Theorem C15_cell_residues_are_own : forall ms t r c,
+  lookup_res (build ms) t r c = dedup_first (map m_res (filter (m_is t r c) ms)).
+Proof. exact lookup_res_spec. Qed.
+Print Assumptions C15_cell_residues_are_own.
+
+(** runs that agree on the measurements of one cell agree on its warning *)
+Theorem C15_cell_warning_local : forall (vals : N -> list bytes) nf ms ms' t r c,
+  filter (m_is t r c) ms = filter (m_is t r c) ms' ->
+  nonsingular vals nf (lookup_res (build ms) t r c) = nonsingular vals nf (lookup_res (build ms') t r c).
+Proof. exact cell_vary_local. Qed.
+Print Assumptions C15_cell_warning_local.
+
+(** a row whose baseline cell AND another cell merge sub-benchmarks: both carry the warning *)
+Example C15_both_cells_warn :
+  let vals := fun k : N => match k with 0%N => [bs "json"] | 1%N => [bs "gob"] | 2%N => [bs "json"] | _ => [bs "xml"] end in
+  let ms := [mkMeas 0 0 0 0 b64_one; mkMeas 0 0 0 1 b64_one; mkMeas 0 0 1 2 b64_one; mkMeas 0 0 1 3 b64_one] in
+  nonsingular vals 1 (lookup_res (build ms) 0 0 0) = [0%nat] /\
+  nonsingular vals 1 (lookup_res (build ms) 0 0 1) = [0%nat].
+Proof. vm_compute. split; reflexivity. Qed.
